@@ -222,7 +222,9 @@ class Grid(object):
         if (time is None):
             list_of_files = glob(
                 "{0}/{1}_*".format(foldername, nameConvention))
-            filename = max(list_of_files)
+            # the latest time, not the lexicographically largest name
+            filename = max(list_of_files, key=lambda f: float(
+                os.path.splitext(os.path.basename(f))[0].split('_')[-1]))
         else:
             filename = "{0}/{1}_{2:06}.h5".format(
                 foldername, nameConvention, time)
